@@ -1058,7 +1058,12 @@ class Server:
         # a handler suspended in its checks must not see the session
         # state (user, current directory) changed by the next command
         async with connection.command_lock:
-            return await f(connection, rest)
+            try:
+                return await f(connection, rest)
+            except errors.PathIOError:
+                # answered here, so that the reply keeps its place
+                connection.response("451", "file system error")
+                return True
 
     @staticmethod
     def get_paths(connection, path):
